@@ -412,6 +412,8 @@ fn find_word_next(string: &str, cursor: usize, full_word: bool) -> usize {
                         return i;
                     }
                 }
+                // Only whitespace is left
+                break;
             }
             // First punctuation after word
             // OR first word after punctuation
